@@ -162,6 +162,9 @@ var wrapFs = map[string]fsx.Entry{
 	"/w/multi.json":        {Kind: "file", Docs: []tv.T{tv.FromGo(map[string]any{"a": 1}), tv.FromGo(map[string]any{"b": []any{"x", ""}})}},
 	"/w/sub/service.yaml":  {Kind: "file", Docs: []tv.T{tv.FromGo(map[string]any{"name": "sub", "zone": 2})}},
 	"/w/over.yaml":         {Kind: "file", Docs: []tv.T{tv.FromGo(map[string]any{"$parent": "service", "extra": 1})}},
+	"/w/orphan.child.yaml": {Kind: "file", Docs: []tv.T{tv.FromGo(map[string]any{"c": 1})}},
+	"/w/kind.yaml":         {Kind: "file", Docs: []tv.T{tv.FromGo(map[string]any{"m": map[string]any{"a": 1}})}},
+	"/w/kind.over.yaml":    {Kind: "file", Docs: []tv.T{tv.FromGo(map[string]any{"m": []any{1}})}},
 	"/w/notes.txt":         {Kind: "other"},
 	"/w/conf.ini":          {Kind: "other"},
 }
